@@ -352,7 +352,7 @@ def gen_tv(rng):
 def gen_atom(rng, out, forbidden=()):
     """one transformation atom producing the channels `out`; returns (atom, required inner channels).
     `forbidden`: input channels of linear atoms applied later in the same chain; they must not be produced here
-    (open finding PF-27: a LinearTransformation that sees only part of its inputs raises KeyError)."""
+    (open finding PF-C08d: a LinearTransformation that sees only part of its inputs raises KeyError)."""
     out = list(out)
     k = rng.choice(['identity', 'offset', 'scaling', 'linear', 'linear', 'parallel', 'parallel'])
     free = [c for c in out if c not in forbidden]
@@ -1158,7 +1158,7 @@ def _tables(r, out):
 
 
 def hold_triple_at_end(es):
-    """PF-26 class: the table ends with three or more entries at the same time and `hold` as last interpolation"""
+    """PF-C08c class: the table ends with three or more entries at the same time and `hold` as last interpolation"""
     return len(es) >= 3 and es[-1][2] == 'hold' and es[-1][0] == es[-2][0] == es[-3][0]
 
 
@@ -1168,7 +1168,7 @@ def pf26_class(g, what, kw):
     return g.recipe[0] == 'table' and hold_triple_at_end(g.recipe[3])
 
 
-KNOWN_CLASSES = {'PF-26': pf26_class}
+KNOWN_CLASSES = {'PF-C08c': pf26_class}
 
 
 # ---------------------------------------------------------------------------------------------
